@@ -28,6 +28,8 @@ structure St where
   profile : String := ""
   concFinal : Option Conc.State := none      -- final state of the section model when its replay agreed
   lastGcOverlap : Bool := false              -- D18 recogniser of the last schedule
+  keyFinals : List (String × List String) := []   -- per key: the values some linearization of the calls on that key ends with
+  d17Keys : List String := []                -- keys with two overlapping mutators in the last schedule
 deriving Repr
 
 def digestOf (khex : String) : Bytes := (mhDecode ((fromHex khex).getD [])).getD []
@@ -176,7 +178,7 @@ partial def linearize (imm : Bool) (m : List (Bytes × Bytes)) (rem : List HOp) 
       | some r => !(r < o.inv) || (o'.thread == o.thread && o'.idx == o.idx)
       | none => true
     minimal.foldl (fun acc o =>
-      if acc.length ≥ 4 then acc else
+      if acc.length ≥ 8 then acc else
       let (m', exp) := specOp imm m o.op
       let rest := rem.filter fun o' => !(o'.thread == o.thread && o'.idx == o.idx)
       let viaTake := if o.res = "" ∨ o.res = exp then linearize imm m' rest (fuel - 1) else []
@@ -226,16 +228,31 @@ def step (st : St) (l : Line) : St × List Msg :=
       ["index.gc.marked", "index.gc.merged", "index.gc.truncated", "index.gc.unlinked", "index.gc.free.truncated", "index.gc.free.unlinked",
        "primary.gc.fl.marked", "primary.gc.merged", "primary.gc.truncated", "primary.gc.unlinked"].any fun p => ev.endsWith ("@" ++ p)
     let gcOverlap := started.any fun o => !isGC o.op && gcEvents.any fun (n, _) => o.inv ≤ n && n ≤ o.ret.getD 1000000
-    let known := if mutOverlap then " [known:D17 overlapping-mutators-of-one-key]"
+    -- The map is a product of independent registers, one per key, and linearizability is local (Herlihy-Wing): the history is
+    -- linearizable iff its restriction to every key is. Verdicts and recognisers are therefore evaluated PER KEY: overlapping
+    -- mutators of key k (D17) can excuse a failure on k only - by the frame theorem C05_keys_do_not_interfere they cannot touch
+    -- another key. D18 (a collector invalidates a held position) stays history-wide: a call on one key can hold another key's
+    -- location through a matching stored prefix.
+    let dataKeys := (started.filter (fun o => (concOfOp o.op).isSome)).map (fun o => keyOfOp o.op) |>.eraseDups
+    let d17Keys := dataKeys.filter fun k => started.any fun a => started.any fun b =>
+      !(a.thread == b.thread && a.idx == b.idx) && isMutator a.op && isMutator b.op && keyOfOp a.op == k && keyOfOp b.op == k && overlap a b
+    let knownFor := fun (k : String) => if d17Keys.contains k then " [known:D17 overlapping-mutators-of-one-key]"
                  else if gcOverlap then " [known:D18 collector-invalidates-held-position]" else ""
-    let pErr := errs.map fun o => Msg.prop s!"call {o.op} of thread {o.thread} returned {o.res}{known}"
+    let known := if gcOverlap then " [known:D18 collector-invalidates-held-position]" else if mutOverlap then " [known:D17 overlapping-mutators-of-one-key]" else ""
+    let pErr := errs.map fun o => Msg.prop s!"call {o.op} of thread {o.thread} returned {o.res}{if (concOfOp o.op).isSome then knownFor (keyOfOp o.op) else known}"
     -- (2) linearizability (ops that returned an error are treated as not having taken effect)
     let forLin := started.map fun o => if o.res = "err" ∨ o.res = "panic" then { o with res := "" } else o
-    let finals := linearize st.imm st.spec forLin 200000
-    let pLin := if finals.isEmpty then
-        [Msg.prop (s!"history is not linearizable with respect to the map: " ++
-          "; ".intercalate (started.map fun o => s!"{o.thread}.{o.idx} {o.op} [{o.inv},{match o.ret with | some r => toString r | none => "-"}] -> {o.res}") ++ known)]
-      else []
+    let perKey := dataKeys.map fun k =>
+      let hk := forLin.filter fun o => (concOfOp o.op).isSome && keyOfOp o.op == k
+      (k, hk, linearize st.imm st.spec hk 200000)
+    let finals := if perKey.all (fun x => !x.2.2.isEmpty) then [st.spec] else []
+    let keyFinals := perKey.map fun (k, _, fs) => (k, (fs.map fun m => match sget m (digestOf k) with | some v => "v" ++ toHex v | none => "absent").eraseDups)
+    -- calls without a key (flush, collectors, sizes ...) must simply return ok
+    let pOther := (forLin.filter fun o => (concOfOp o.op).isNone ∧ o.res ≠ "" ∧ o.res ≠ "ok" ∧ o.res ≠ "na").map fun o =>
+      Msg.prop s!"call {o.op} of thread {o.thread} returned {o.res}{known}"
+    let pLin := pOther ++ perKey.filterMap fun (k, hk, fs) => if !fs.isEmpty then none else
+        some (Msg.prop (s!"history of key {k} is not linearizable with respect to the map: " ++
+          "; ".intercalate (hk.map fun o => s!"{o.thread}.{o.idx} {o.op} [{o.inv},{match o.ret with | some r => toString r | none => "-"}] -> {o.res}") ++ knownFor k))
     -- (3) rate-limited writers are released by a flush that completes after their wait began
     let stuck := (ra.get "stuck").splitOn ";" |>.filter (· ≠ "")
     let waiting := stuck.filter fun s => s.endsWith "/store.flushtick.waiting"
@@ -267,26 +284,36 @@ def step (st : St) (l : Line) : St × List Msg :=
         (if c.predictedLost then [Msg.flag "conc-model-predicts-lost-put"] else []),
         if c.bad.isEmpty ∧ stuck.isEmpty ∧ c.s.threads.all (fun t => t.prog.isEmpty) then some c.s else none)
     let flags := concMsgs ++ [Msg.flag "schedule"] ++
+      (if evs.any (·.startsWith "window:open") then [Msg.flag "collector-window"] else []) ++
+      (if evs.any (fun e => (e.splitOn ":blocked:").length > 1) then [Msg.flag "thread-blocked"] else []) ++
+      (if evs.any (fun e => e.endsWith "@primary.gc.reloc.put") then [Msg.flag "relocation"] else []) ++
       (if started.any (fun a => started.any fun b => a.thread ≠ b.thread && overlap a b) then [Msg.flag "overlapping-calls"] else []) ++
       (if mutOverlap then [Msg.flag "overlapping-mutators"] else []) ++
       (if gcOverlap then [Msg.flag "gc-overlaps-call"] else []) ++
       (if evs.any (·.endsWith "@store.flushtick.waiting") then [Msg.flag "writer-waited"] else []) ++
       (if evs.any (·.endsWith "@store.flushtick.released") then [Msg.flag "writer-released"] else [])
-    ({ st with lastHist := hist, finalSpecs := finals, concFinal := concFinal, lastGcOverlap := gcOverlap }, pErr ++ pLin ++ pWait ++ pStuck ++ flags)
+    ({ st with lastHist := hist, finalSpecs := finals, concFinal := concFinal, lastGcOverlap := gcOverlap, keyFinals := keyFinals, d17Keys := d17Keys },
+      pErr ++ pLin ++ pWait ++ pStuck ++ flags)
   | "sfinal" =>
     let ra := resArgs l.res
     let keys := (l.args.get "k").splitOn ","
     let reads := (ra.get "reads").splitOn ","
     let head := (l.res.splitOn " ").headD ""
-    let agrees (m : List (Bytes × Bytes)) : Bool :=
-      (keys.zip reads).all fun (k, r) => (match sget m (digestOf k) with | some v => "v" ++ toHex v | none => "absent") = r
-    let okFinal := st.finalSpecs.isEmpty || st.finalSpecs.any agrees
+    -- per key: the value read after quiescence is the final value of some linearization of the calls on that key (a key no
+    -- call touched keeps its prepared value); keys whose history was not linearizable were reported by the schedule already
+    let badKeys := (keys.zip reads).filter fun (k, r) =>
+      match st.keyFinals.find? (·.1 = k) with
+      | some (_, fs) => !fs.isEmpty && !fs.contains r
+      | none => (match sget st.spec (digestOf k) with | some v => "v" ++ toHex v | none => "absent") ≠ r
+    let okFinal := badKeys.isEmpty
     let hist := st.lastHist.filter (·.inv < 1000000)
     let mutOverlap := hist.any fun a => hist.any fun b =>
       !(a.thread == b.thread && a.idx == b.idx) && isMutator a.op && isMutator b.op && keyOfOp a.op == keyOfOp b.op && overlap a b
     -- the same recognisers as for the schedule itself: a key dropped because a collector invalidated a held location (D18b)
     -- shows only in the contents read afterwards
     let known := if mutOverlap then " [known:D17 overlapping-mutators-of-one-key]"
+                 else if st.lastGcOverlap then " [known:D18 collector-invalidates-held-position]" else ""
+    let knownKey := fun (k : String) => if st.d17Keys.contains k then " [known:D17 overlapping-mutators-of-one-key]"
                  else if st.lastGcOverlap then " [known:D18 collector-invalidates-held-position]" else ""
     -- C13 accounting after quiescence (implementation's own views): every non-deleted primary record that no index entry names
     -- is on the freelist exactly once; nothing current is on it; nothing is on it twice
@@ -307,7 +334,8 @@ def step (st : St) (l : Line) : St × List Msg :=
         let exp := keys.map fun k => match Conc.contents cs (digestOf k) with | some v => "v" ++ toHex v | none => "absent"
         if exp = reads then [Msg.flag "conc-model-final-agrees"] else [Msg.corr s!"section model: final contents model=[{",".intercalate exp}] impl=[{ra.get "reads"}]"]
     (st, concCmp ++ acctMsgs ++ (if head = "ok" then [] else [Msg.prop s!"flush after the schedule failed: {l.res}"]) ++
-         (if okFinal then [] else [Msg.prop s!"contents after all activity stopped [{ra.get "reads"}] equal no linearization of the calls{known}"]))
+         (if okFinal then [] else badKeys.map fun (k, r) =>
+            Msg.prop s!"key {k} reads [{r}] after all activity stopped; the linearizations of its calls end with {(st.keyFinals.find? (·.1 = k)).map (·.2)}{knownKey k}"))
   | _ => (st, [.corr s!"unknown op {l.op}"])
 
 end Driver.Sched
